@@ -88,7 +88,7 @@ def run_case(case, rec):
                         wnio.add(paths[name])
                     else:
                         wn.add_lexical_resource(lmf.load(paths[name], progress_handler=None), progress_handler=None)
-                    m.add_resource(resources[name])
+                    m.add_like_real(resources[name], [lx.specifier() for lx in wn.lexicons()])
                     rec.event('op.add')
                     new = set(m.lex) - before
                     if new and removed_something:
